@@ -177,6 +177,11 @@ def run(tier):
     for w in wrappers:
         for b in bodies:
             cases.append((w.replace("%s", b)).encode())
+    # several unresolved gotos at once: which one is reported is a function of the text (each text is loaded twice)
+    for k in range(24):
+        labs = ["zeta", "alpha", "mid", "omega", "beta", "q%d" % k]
+        cases.append((" ".join("goto %s" % labs[(k + j) % len(labs)] for j in range(2 + k % 4)) + " local x = %d" % k).encode())
+        cases.append(("do %s end" % " ".join("if x then goto %s end" % labs[(k * 3 + j) % len(labs)] for j in range(3 + k % 3))).encode())
     # constant expressions (the compiler folds them while loading): every operator over boundary
     # literals; all of them are valid chunks, so the loader must return a function
     lits = ["0", "-0", "1", "-1", "2", "0.5", "7", "1e308", "1e-320", "2^53", "2^1024", "(3-3)", "(0/0)", "(1/0)", "(-1/0)", "0x7fffffff", "0xffffffffffff",
